@@ -2,5 +2,5 @@
    ExtrOcamlBasic only: bool, option, unit, list, prod, sumbool, sumor map to the OCaml
    types; nat, N, positive, ascii stay extracted inductives.  No directive of our own. *)
 From Coq Require Import Extraction ExtrOcamlBasic.
-From SP Require Import TempNames TempDirModel Format RefEval.
+From SP Require Import TempNames TempDirModel Format WfModel.
 Extraction "model.ml" task_tempdir preimage hashed format_command eval.
